@@ -412,3 +412,34 @@ Definition timeout_ref := longest_prefix_value dur_has to_duration dur_top k_tim
 Definition log_level_ref (def : Z) := longest_prefix_value str_nonempty (level_of def) (level_top def) k_loglevel.
 Definition concurrency_ref := longest_prefix_value str_nonempty to_int64 conc_top k_concurrency.
 Definition bool_ref (var : comp) := longest_prefix_value str_nonempty to_bool (bool_top var) var.
+
+(* ------------------------------------------------------------------------------------------- *)
+(* The configuration over time.  The five functions keep nothing between calls: every call reads
+   the configuration as it stands (and, for the unrecognised-level fallback, the level of the global
+   logger as it stands).  A running process sees its configuration change on ONE viper instance:
+   viper.Set / SetDefault of a key, a merged document (MergeConfigMap / MergeConfig), an
+   environment variable appearing or disappearing under AutomaticEnv, a reloaded file (ReadConfig,
+   WatchConfig).  A change is what it does to what viper presents. *)
+Inductive change :=
+| ChSet (k : path) (r : raw)      (* the key now reads r (RNil: an explicit null) *)
+| ChDel (k : path)                (* the key is gone (environment variable unset) *)
+| ChReload (c : config)           (* the whole tree replaced by a re-read document *)
+| ChDefLevel (z : Z).             (* the level of the global logger changed *)
+
+(* [get] takes the first leaf with the key, so the new leaf in front shadows the old one *)
+Definition set_leaf (k : path) (r : raw) (c : config) : config := (k, r) :: c.
+Definition del_leaf (k : path) (c : config) : config :=
+  filter (fun e => negb (path_eqb (fst e) k)) c.
+
+(* configuration and level of the global logger *)
+Definition world := (config * Z)%type.
+
+Definition apply_change (w : world) (ch : change) : world :=
+  match ch with
+  | ChSet k r => (set_leaf k r (fst w), snd w)
+  | ChDel k => (del_leaf k (fst w), snd w)
+  | ChReload c => (c, snd w)
+  | ChDefLevel z => (fst w, z)
+  end.
+
+Definition apply_changes (w : world) (chs : list change) : world := fold_left apply_change chs w.
